@@ -17,3 +17,11 @@ func TestVerif_C07R(t *testing.T) {
 		report(nil)
 	})
 }
+
+func TestVerif_C07RRace(t *testing.T) {
+	kit07.RaceMain(t, "restore", func(c kit07.Case, file []byte, report func(error)) {
+		dr := &dbRestorer{id: 0, target: []string{"target:6379"}}
+		dr.restoreRDBFile(bufio.NewReaderSize(bytes.NewReader(file), 4096), dr.target, "auth", "", int64(len(file)), false)
+		report(nil)
+	})
+}
